@@ -137,6 +137,41 @@ def _reader_job(args):
         written = SL.concat(SL.concat(SL.lit(q), body), SL.lit(q)) & alpha
         q1[q] = _w(written - accq, 2)
     out["q1"] = q1
+    # DASH: the dash-continuation removal of decode_quoted_string covers "-" + any format effector + any run of white space
+    out["dash"] = None
+    dc_, dq = repo.resolve_method(dcls, "decode_quoted_string")
+    if dq is not None and dc_ != "PVLDecoder":
+        import ast as _ast
+        ev = PE.Eval(rd.ctx, dcls, dc_, {})
+        for st_ in dq.body:
+            if isinstance(st_, _ast.Assign) and len(st_.targets) == 1 and isinstance(st_.targets[0], _ast.Name):
+                try:
+                    ev.env[st_.targets[0].id] = PE.Conc(ev.conc(st_.value))
+                except PE.Unsupported:
+                    pass
+        pats = []
+        for n_ in _ast.walk(dq):
+            if isinstance(n_, _ast.Call) and norm(n_.func) in ("re.sub", "re.subn") and len(n_.args) >= 2 \
+                    and isinstance(n_.args[1], _ast.Constant) and n_.args[1].value == "":
+                try:
+                    pt = ev.fstring(n_.args[0])
+                except PE.Unsupported:
+                    continue
+                if pt.startswith("-"):
+                    pats.append(pt)
+        if pats:
+            L = SL.union([SL.rx(p_) for p_ in pats])
+            fe = SL.syms([c for c in g.format_effectors if len(c) == 1])
+            wsym = SL.syms([c for c in g.whitespace if len(c) == 1])
+            one_fe = SL.star(fe) & SL.length_eq(1)
+            want = SL.concat(SL.lit("-"), SL.concat(one_fe, SL.star(wsym)))
+            out["dash"] = {"patterns": pats, "not_removed": _w(want - L, 3)}
+        else:
+            out["dash"] = {"patterns": [], "not_removed": ["<no dash-continuation removal found>"]}
+    # KW-EXCL: no block keyword (begin or end, any letter case) and no END statement is an unquoted string for the decoder
+    kws = sorted(set(g.aggregation_keywords.keys()) | set(g.aggregation_keywords.values()) | set(g.end_statements))
+    acc_uq = PE.accepts(rd.method("decode_unquoted_string"))
+    out["kw_excl"] = {"keywords": kws, "accepted": _w(acc_uq & SL.anyof(kws, ic=True), 4)}
     # G1: each public Token predicate holds exactly where the decoder method of the same class accepts
     g1 = {}
     for pred, dec in (("is_decimal", "decode_decimal"), ("is_non_decimal", "decode_non_decimal"), ("is_datetime", "decode_datetime"),
@@ -385,6 +420,44 @@ def rule_lex1(repo, res, an, kinds=("decimal number", "based integer", "date/tim
                                 "(the end-of-lexeme decision -- lex_continue() and the yield condition of lexer() -- has no "
                                 "exception for this spelling)", witness=c["witness"], where="pvl/lexer.py"))
     res.floor("LEX1 pairings", len(an["readers"]), 5)
+
+
+def rule_dash(repo, res, an):
+    """DASH: for the ODL-family decoders, the dash-continuation removal of decode_quoted_string ("the dash, the line
+    end, and any leading whitespace on the next line") removes "-" followed by any format effector of the grammar and
+    any run of the grammar's white space -- in particular a CR LF line end and the indentation after it (language
+    inclusion on the pattern of the re.sub call)."""
+    n = 0
+    for r in an["readers"]:
+        d = r.get("dash")
+        if d is None:
+            continue
+        n += 1
+        cfg = f"{r['decoder']}/{r['grammar']}"
+        ok = not d["not_removed"]
+        res.oblige("DASH", f"{cfg}: decode_quoted_string removes '-' + format effector + any white-space run ({d['patterns']})", ok=ok)
+        if not ok:
+            res.add(Finding("DASH", f"{r['decoder']}.decode_quoted_string", f"{cfg}: continuation not removed",
+                            f"with {cfg}, the dash-continuation removal {d['patterns']} leaves {d['not_removed']} in place: a string "
+                            "hyphenated across a line end (CR LF, or a blank continuation line) keeps part of the line end and is folded "
+                            "to a blank inside the word", witness=d["not_removed"][0], where="pvl/decoder.py"))
+    res.floor("ODL-family decoders with a dash-continuation removal", n, 2)
+
+
+def rule_kw_excl(repo, res, an):
+    """KW-EXCL: decode_unquoted_string refuses every begin/end block keyword of the grammar's aggregation_keywords
+    table and every END statement, in any letter case (language intersection per pairing).  A keyword that is
+    accepted as a value is swallowed by the statement before it: `b =` followed by `GROUP = g` reads GROUP as the
+    value of b."""
+    for r in an["readers"]:
+        cfg = f"{r['decoder']}/{r['grammar']}"
+        w = r["kw_excl"]["accepted"]
+        res.oblige("KW-EXCL", f"{cfg}: no block keyword / END statement ({len(r['kw_excl']['keywords'])}) is accepted as an unquoted string", ok=not w)
+        if w:
+            res.add(Finding("KW-EXCL", f"{r['decoder']}.decode_unquoted_string", f"{cfg}: accepts block keywords",
+                            f"with {cfg}, decode_unquoted_string accepts {w} although they are block keywords / END statements of the "
+                            "grammar: a value position swallows the keyword that starts the next statement (a missing value is not "
+                            "recognised, a block is not opened)", witness=w[0], where="pvl/decoder.py"))
 
 
 def rule_g1_lang(repo, res, an):
